@@ -105,6 +105,16 @@ def check(ctx):
                        f"{tm.qualname} accepts {p!r} but never reads it (it is overwritten by the default): {mname}({p}=...) renders with "
                        f"the default for every value", clause="all max_rows/max_width/truncate_width settings")
     ctx.count("options of the renderers", n_opt, 6)
+    # multi-line cells are cut at the first line boundary of ANY kind (str.splitlines); split("\n") knows one kind only
+    vts_ = repo.fn(f"{VEC}.to_strings")
+    cuts = [c for _, c in calls_in(vts_) if isinstance(c.func, ast.Attribute) and c.func.attr in ("splitlines", "split", "partition")]
+    narrow = [c for c in cuts if c.func.attr in ("split", "partition") and c.args and isinstance(c.args[0], ast.Constant)
+              and c.args[0].value in ("\n", "\r\n", "\r")]
+    ok = bool(cuts) and not narrow
+    ctx.ob("SIB-pad", vts_, f"cells are cut into lines with {sorted({c.func.attr for c in cuts})}", narrow[0] if narrow else vts_.node, ok,
+           "every kind of line boundary (\\n, \\r\\n, \\r, U+2028, ...) ends the first line" if ok else
+           f"{norm(narrow[0])} splits at one kind of line break only: a cell containing \\r, \\r\\n or U+2028 is rendered over several "
+           f"physical lines, so the table has more lines than rows", clause="one line per row")
     # util.upad pads to a common DISPLAY width: every width it computes comes from util.ulen, never from len() or the
     # code-point based str.rjust / ljust / center / format-spec padding
     up = repo.fn("dataiter.util.upad")
